@@ -344,6 +344,13 @@ def make_jobs(tier: str, seed: int, emitted: List[dict], raising: List[dict], ro
     if not orders:
         raise MachineryError("no out-of-order completion order emitted by Runner")
 
+    outcomes: Dict[str, list] = {}
+    for r in emitted + raising:
+        o = _algo_outcome(r)
+        lst = outcomes.setdefault(json.dumps([r["tasks"], r["n"], r["mode"], r["op"]]), [])
+        if o not in lst:
+            lst.append(o)
+
     def add_job(jid: str, tpl: str, kindof: Dict[str, str], runs: List[dict], overrides: Optional[dict] = None,
                 tlc: Optional[Dict[str, dict]] = None) -> None:
         orig = {}
@@ -353,7 +360,9 @@ def make_jobs(tier: str, seed: int, emitted: List[dict], raising: List[dict], ro
                 orig[f] = hashlib.sha256(fh.read()).hexdigest()[:16]
         for r in runs:
             r["_orig"] = orig
-            meta[r["id"]] = {"job": jid, "spec": r, "kindof": kindof, "tlc": (tlc or {}).get(r["id"])}
+            t = (tlc or {}).get(r["id"])
+            meta[r["id"]] = {"job": jid, "spec": r, "kindof": kindof, "tlc": t,
+                             "algo_outcomes": outcomes.get(json.dumps([t["tasks"], t["n"], t["mode"], t["op"]])) if t else None}
         jobs.append({"id": jid, "template": tpl, "overrides": overrides or {"dialect": "ansi"},
                      "runs": [{k: v for k, v in r.items() if not k.startswith("_")} for r in runs]})
 
@@ -496,10 +505,15 @@ def check_tlc_values(rep: Report, rid: str, m: dict, run: dict, sig: dict, tpl: 
         want_exit = rec["exp"]["exit1" if spec["_skipfail"] else "exit0"]
         if fin["exit"] != want_exit:
             rep.violation("ExitAgrees", sig, f"{what} skip_fail={spec['_skipfail']}: exit {fin['exit']}, contract {want_exit}", payload)
-    algo = (sorted({(r["f"], r["rec"]) for r in rec["recs"]}), rec["skipped"], sorted(rec["written"]))
-    real = (sorted(set(adds)), fin["skipped"] if fin["skipped"] is not None else rec["skipped"], written)
-    if algo != real and not rec["aborted"]:
-        rep.drift.append(f"{what}: transcription predicts {algo}, code gives {real}")
+    # DRIFT: the code's outcome is none of the outcomes the transcription reaches for this input (any interleaving)
+    algo = m.get("algo_outcomes") or [_algo_outcome(rec)]
+    real = [sorted([list(x) for x in set(adds)]), fin["skipped"] if fin["skipped"] is not None else rec["skipped"], written]
+    if real not in algo and not rec["aborted"]:
+        rep.drift.append(f"{what}: transcription reaches {algo}, code gives {real}")
+
+
+def _algo_outcome(rec: dict) -> list:
+    return [sorted([[r["f"], r["rec"]] for r in rec["recs"]]), rec["skipped"], sorted(rec["written"])]
 
 
 def diff_codes(run: dict, base: dict) -> str:
